@@ -305,7 +305,9 @@ def judge(op, spec, before_blocks, after_blocks, db, problems, diags, tag, dbnam
     worst = 0.0
     for e in sorted(set(exp) | set(inv1)):
         a, b = exp.get(e, 0.0), inv1.get(e, 0.0)
-        scale = max(abs(a), abs(b))
+        # "relative 1e-6 of the element's system inventory": the inventory the step works on - before, after, or what the step
+        # adds or withdraws (a withdrawal that empties the system leaves the rounding of inventory - withdrawal, not 0)
+        scale = max(abs(a), abs(b), abs(inv0.get(e, 0.0)), abs(add.get(e, 0.0)))
         if e == "charge":
             scale = max(scale, ion_scale)
         if scale == 0.0:
